@@ -35,6 +35,15 @@ CLAIMED = {
     'C17': dict(design='§6 C17', technique='Lean 4 proof (princeLoop size = take N; C01/C02 on the Prince grid) + subprocess diff for every N inside tie groups',
                 text='--size theorem for all N and pop sequences; order/each-once from the PQ theorems; stdout vs -o file vs in-process stream.',
                 note='same trusted base as C01/C04/C09'),
+    'C03': dict(design='§6 C03', technique='Lean 4 proof (case insertion + product-of-groups language: every training parse is a derivation; emitted mass = 1 over Rat) + real train→guess runs with an independent reparse oracle',
+                text='Theorems: the loader gives every alpha slot its capitalisation slot (all positions, any structure); the password of a training parse is in the product specification of its pre-terminal; every pre-terminal is emitted (C02); mass over Rat sums to 1. Real trainer + real guesser on generated lists: every supported training password appears, probability mass equals 1 up to rounding.',
+                note='which parse the trainer chooses is C05; float mass compared with tolerance; multiword detector threshold is runtime data'),
+    'C05': dict(design='§6 C05', technique='Lean 4 proof (tiling invariant of every detector stage and of the whole pipeline for any Unicode database that preserves length under the detectors\' lower-casing) + correspondence of all detectors on generated passwords',
+                text='Theorems: for every input and every Unicode environment with length-preserving lower-casing the keyboard/e-mail/website/year/context/alpha/digit/other stages keep a tiling of the password, every section ends labelled, labels carry the section length, keyboard sections are single-layout walks of >= 4 keys. Detector tables (layouts, TLDs, year prefixes, context list) regenerated from the source each run; the real detectors compared section by section.',
+                note='CPython Unicode database enters as a parameter (validated per code point for the letters used); multiword trie contents are data'),
+    'C13': dict(design='§6 C13', technique='Lean 4 proof (e-mail/website ⇒ probability 0 and category e/w for every grammar and input; scorer = model of the detector pipeline proved tiling in C05) + real scorer vs model and vs the real guesser enumeration',
+                text='Proved for all inputs: a string in which an e-mail or website is detected scores 0 with category e/w. The keep-the-promise clause (non-zero score = probability of an emitting pre-terminal) is decided per input by comparing the real scorer with the Lean scorer model (bit-exact) and with the real guesser\'s pre-terminal enumeration on trainer-produced rulesets; the general promise theorem is partial (see DESIGN.md §6 C13).',
+                note='letters whose lower() is not inverted by upper() (title-case digraphs etc.) are the recorded known finding; OMEN level scoring is C11'),
     'C06': dict(design='§6 C06', technique='Lean 4 proof (calcProbs: permutation, count/total, stable sort, sum = 1 over Rat, Markov share) + bit-exact correspondence + file-by-file recomputation',
                 text='Theorems for every counter; real calculate_probabilities compared bit for bit; every list file of real trainings equals the independently recomputed relative-frequency list of the real parser counters; determinism across hash seeds.',
                 note='float sums differ from 1 by rounding only; which items reach which counter is C05'),
